@@ -138,8 +138,8 @@ class Library:
         f[n + '__from__nullopt_t'] = 'static inline %s %s__from__nullopt_t(nullopt_t x) { %s o; o.has = 0; return o; }' % (ct, n, ct)
         f[n + '__from__' + S(e)] = 'static inline %s %s__from__%s(%s v) { %s o; o.has = 1; o.val = v; return o; }' % (ct, n, S(e), e, ct)
         f['ext__make_optional__%s__%s' % (n, S(e))] = 'static inline %s ext__make_optional__%s__%s(%s v) { %s o; o.has = 1; o.val = v; return o; }' % (ct, n, S(e), e, ct)
-        f[n + '__has_value'] = 'static inline _Bool %s__has_value(%s o) { return o.has; }' % (n, ct)
-        f[n + '__op_conv_bool'] = 'static inline _Bool %s__op_conv_bool(%s o) { return o.has; }' % (n, ct)
+        f[n + '__has_value'] = 'static inline _Bool %s__has_value(%s o) { return o.has != 0; }' % (n, ct)
+        f[n + '__op_conv_bool'] = 'static inline _Bool %s__op_conv_bool(%s o) { return o.has != 0; }' % (n, ct)
         f[n + '__op_deref'] = ('static inline %s %s__op_deref(%s o) { __CPROVER_assert(o.has, "UB: optional dereferenced '
                                'without a value (operator* / operator->)"); return o.val; }' % (e, n, ct))
         f[n + '__op_arrow'] = ('static inline %s %s__op_arrow(%s o) { __CPROVER_assert(o.has, "UB: optional dereferenced '
@@ -151,7 +151,7 @@ class Library:
         f[n + '__value_or__' + S(e)] = 'static inline %s %s__value_or__%s(%s o, %s d) { return o.has ? o.val : d; }' % (e, n, S(e), ct, e)
         f[n + '__value_or'] = 'static inline %s %s__value_or(%s o, %s d) { return o.has ? o.val : d; }' % (e, n, ct, e)
         f[n + '__op_eq__nullopt_t'] = 'static inline _Bool %s__op_eq__nullopt_t(%s o, nullopt_t x) { return !o.has; }' % (n, ct)
-        f[n + '__op_ne__nullopt_t'] = 'static inline _Bool %s__op_ne__nullopt_t(%s o, nullopt_t x) { return o.has; }' % (n, ct)
+        f[n + '__op_ne__nullopt_t'] = 'static inline _Bool %s__op_ne__nullopt_t(%s o, nullopt_t x) { return o.has != 0; }' % (n, ct)
         f[n + '__op_assign__nullopt_t'] = 'static inline void %s__op_assign__nullopt_t(%s *o, nullopt_t x) { o->has = 0; }' % (n, ct)
         f[n + '__op_assign__' + S(e)] = 'static inline void %s__op_assign__%s(%s *o, %s v) { o->has = 1; o->val = v; }' % (n, S(e), ct, e)
         f[n + '__reset'] = 'static inline void %s__reset(%s *o) { o->has = 0; }' % (n, ct)
@@ -174,9 +174,9 @@ class Library:
     # -- SystemMaybe<T>
     def maybe(self, n, ct, e):
         f = {}
-        f[n + '__op_conv_bool'] = 'static inline _Bool %s__op_conv_bool(%s m) { return m.ok; }' % (n, ct)
-        f[n + '__op_not'] = 'static inline _Bool %s__op_not(%s m) { return !m.ok; }' % (n, ct)
-        f[n + '__has_value'] = 'static inline _Bool %s__has_value(%s m) { return m.ok; }' % (n, ct)
+        f[n + '__op_conv_bool'] = 'static inline _Bool %s__op_conv_bool(%s m) { return m.ok != 0; }' % (n, ct)
+        f[n + '__op_not'] = 'static inline _Bool %s__op_not(%s m) { return m.ok == 0; }' % (n, ct)
+        f[n + '__has_value'] = 'static inline _Bool %s__has_value(%s m) { return m.ok != 0; }' % (n, ct)
         if e != 'void':
             f[n + '__op_deref'] = ('static inline %s %s__op_deref(%s m) { __CPROVER_assert(m.ok, "UB: SystemMaybe '
                                    'dereferenced while holding an error"); return m.val; }' % (e, n, ct))
@@ -314,6 +314,9 @@ class Library:
         f['dur_s_t__from__int'] = 'static inline dur_s_t dur_s_t__from__int(int k) { dur_s_t d; d.s = k; return d; }'
         f['dur_s_t__from__int64_t'] = 'static inline dur_s_t dur_s_t__from__int64_t(int64_t k) { dur_s_t d; d.s = k; return d; }'
         f['dur_s_t__count'] = 'static inline int64_t dur_s_t__count(dur_s_t d) { return d.s; }'
+        f['dur_us_t__from__int'] = 'static inline dur_us_t dur_us_t__from__int(int k) { dur_us_t d; d.us = k; return d; }'
+        f['dur_us_t__from__int64_t'] = 'static inline dur_us_t dur_us_t__from__int64_t(int64_t k) { dur_us_t d; d.us = k; return d; }'
+        f['dur_us_t__count'] = 'static inline int64_t dur_us_t__count(dur_us_t d) { return d.us; }'
         f['dur_ms_t__from__int'] = 'static inline dur_ms_t dur_ms_t__from__int(int k) { dur_ms_t d; d.ms = k; return d; }'
         f['dur_ms_t__count'] = 'static inline int64_t dur_ms_t__count(dur_ms_t d) { return d.ms; }'
         # duration_cast<seconds>(nanoseconds): truncation toward zero
